@@ -175,6 +175,12 @@ def cases(tier, seed):
     for split in ALL_SPLITS:
         for simp in ("PE", "PS", "3D"):
             out.append({"kind": "setC", "split": split, "simp": simp, "how": "setE"})
+    # the mesh of a loaded simulation is replaced: nothing of the previous elements may survive (no loading -> no damage)
+    for split in ("Bourdin", "Amor"):
+        for regu in ("AT2",):  # (the load level of these cases stays below the AT1 threshold: nothing to inherit)
+            for solver in ("History", "HistoryDamage", "BoundConstrain"):
+                for other in ("same_size", "other_size"):
+                    out.append({"kind": "remesh", "split": split, "regu": regu, "solver": solver, "elemType": "QUAD4", "other": other})
     for cfg in hist_configs(tier):
         for l1 in LOADS:
             out.append({"kind": "hist", **cfg, "l1": l1, "depth": _hist_depth(tier)})
@@ -921,7 +927,42 @@ def _run_dtype(case):
     return {"violations": _dedupe(v), "fingerprint": fp("dtype", cfg, obs), "nontrivial": True, "transitions": ntr, "outcome": "ok" if not v else "violation"}
 
 
+def _run_remesh(case):
+    """loading on one mesh, then `simu.mesh = another mesh` (same number of elements, other geometry; or another number of elements), then a
+    solve with NO loading: the damage stays zero, as on a freshly built simulation"""
+    import contextlib
+    import io
+
+    simu, mesh, n0, n1 = build_simu(case)
+    key = dict(kind="remesh", split=case["split"], regu=case["regu"], solver=case["solver"], elemType=case["elemType"], other=case["other"])
+    v, ntr = [], 0
+    with contextlib.redirect_stdout(io.StringIO()):
+        for lvl in (0.5, 1.0):
+            simu.Bc_Init()
+            simu.add_dirichlet(n0, [0.0, 0.0], ["x", "y"])
+            simu.add_dirichlet(n1, [LOAD_A * lvl], ["x"])
+            simu.Solve()
+            simu.Save_Iter()
+            ntr += 2
+        dmax0 = float(np.max(simu.damage))
+        zm = Z.template_2d(case["elemType"], 3 if case["other"] == "same_size" else 2, distort=True)
+        new = zm.build()
+        simu.mesh = new
+        x = new.coord[:, 0]
+        m0 = np.where(np.abs(x - x.min()) < 1e-12)[0]
+        simu.add_dirichlet(m0, [0.0, 0.0], ["x", "y"])
+        simu.Solve()
+        ntr += 2
+    d = float(np.max(np.abs(simu.damage)))
+    if not np.isfinite(d) or d > 1e-12:
+        v.append(viol("damage_without_loading", f"{case['split']}/{case['regu']}/{case['solver']}: after the mesh was replaced ({case['other']}) an unloaded solve gives max damage "
+                                                f"{d:.3e} (damage reached on the previous mesh {dmax0:.3e})", **key))
+    return {"violations": v, "fingerprint": fp("remesh", case, dmax0), "nontrivial": dmax0 > 1e-3, "transitions": ntr, "outcome": "ok" if not v else "violation"}
+
+
 def run_case(case):
+    if case["kind"] == "remesh":
+        return _run_remesh(case)
     if case["kind"] == "dtype":
         return _run_dtype(case)
     return globals()["_run_" + case["kind"]](case)
